@@ -45,4 +45,19 @@ theorem traversing_functions_take_finite_sequences_only :
        "Fwrite", "Swrite", "Write"] := by
   decide
 
+/-- tie 1: what each exported v3 constructor with result type `Number` can return, followed through
+the package's helpers down to the literals, in the source today: only `NewNumberForTesting` (whose
+bounded results are bounded by construction: no repeating digits) can return a bare `*FiniteNumber`
+with digits; every root and every generator-backed Number is wrapped (`opaque`) or is the zero
+value. These are the base values `finite_iff_bounded_by_construction` starts from (`.opqN` for the
+wrapped ones, `.fnum` for the finite ones); a fast path that returns an unwrapped Number for some
+radicands changes this table. -/
+theorem constructors_wrap_unbounded_numbers :
+    Gen.V3.numberConstructorKinds =
+      [("CubeRoot", ["opaque", "zero"]), ("CubeRootBigInt", ["opaque", "zero"]), ("CubeRootBigRat", ["opaque", "zero"]),
+       ("CubeRootRat", ["opaque", "zero"]), ("NewNumber", ["opaque", "zero"]), ("NewNumberForTesting", ["finite", "nil", "opaque", "zero"]),
+       ("NewNumberFromBigRat", ["opaque", "zero"]), ("Sqrt", ["opaque", "zero"]), ("SqrtBigInt", ["opaque", "zero"]),
+       ("SqrtBigRat", ["opaque", "zero"]), ("SqrtRat", ["opaque", "zero"])] := by
+  decide
+
 end Sqroot.Props.C17
